@@ -49,13 +49,13 @@ var required = []req{
 	{"rlp", "shortToLong", kInt, "Rlp/Model.v shortToLong (C06, C01, C10)"},
 	{"rlp", "maxInt32", kInt, "Rlp/Model.v maxInt32 (C06, C01, C10)"},
 	{"ethsigner", "TransactionType1559", kInt, "Tx/Model.v TransactionType1559 (C01, C10)"},
-	{"keystorev3", "nLight", kInt, "Keystore/Model.v nLight (C07, C15)"},
-	{"keystorev3", "nStandard", kInt, "Keystore/Model.v nStandard (C07, C15)"},
-	{"keystorev3", "pDefault", kInt, "Keystore/Model.v pDefault (C07, C15)"},
-	{"keystorev3", "defaultR", kInt, "Keystore/Model.v defaultR (C07, C15)"},
+	{"keystorev3", "nLight", kInt, "Keystore/Model.v nLight (C07)"},
+	{"keystorev3", "nStandard", kInt, "Keystore/Model.v nStandard (C07)"},
+	{"keystorev3", "pDefault", kInt, "Keystore/Model.v pDefault (C07)"},
+	{"keystorev3", "defaultR", kInt, "Keystore/Model.v defaultR (C07)"},
 	{"keystorev3", "version3", kInt, "Keystore/Model.v version3 (C07, C15)"},
 	{"keystorev3", "derivedKeyLen", kInt, "Keystore/Model.v derivedKeyLen (C07, C15)"},
-	{"keystorev3", "cipherAES128ctr", kString, "Keystore/Model.v cipherAES128ctr (C07, C15)"},
+	{"keystorev3", "cipherAES128ctr", kString, "Keystore/Model.v cipherAES128ctr (C07)"},
 	{"keystorev3", "kdfTypeScrypt", kString, "Keystore/Model.v kdfTypeScrypt (C07, C15)"},
 	{"keystorev3", "kdfTypePbkdf2", kString, "Keystore/Model.v kdfTypePbkdf2 (C07, C15)"},
 	{"keystorev3", "prfHmacSHA256", kString, "Keystore/Model.v prfHmacSHA256 (C07, C15)"},
